@@ -179,29 +179,83 @@ def run(run):
                     "Span::can_merge is not exactly `self.iter().any(|a| other.iter().any(|b| a.is_adjacent(b)))`: %s" % why)
         else:
             run.bad("C10.I2", "span-can-merge", where(prog.bodies[cm]), "Span::merge/can_merge do not test Cell::is_adjacent between the spans' cells")
-        it = src_fn(run, "cell_buffer/cell.rs", "is_adjacent", impl_self="Cell")
+        # decided on the truth table: the body is evaluated path by path (integer arithmetic folded exactly) for
+        # self = (0, 0) and every other cell in [-3, 3]^2 (the formula can only depend on small differences if it is
+        # right), and must equal |dx| <= 1 && |dy| <= 1.  Any way of writing the formula is accepted.
+        from ..mirlib import paths as mir_paths
         ok = False
-        if it is not None:
-            st = it["body"]["stmts"]
-            e = st[0]["expr"] if len(st) == 1 and st[0]["k"] == "expr_stmt" else {}
-            def axis(n):
-                # (other.c - self.c).abs() <= 1   (either order)
-                if n.get("k") == "binary" and n["op"] == "<=" and n["r"].get("ty") == "int" and n["r"]["v"] == "1":
-                    l = n["l"]
-                    if l.get("k") == "method" and l["method"] == "abs":
-                        d = l["recv"]
-                        if d.get("k") == "binary" and d["op"] == "-":
-                            a, b2 = d["l"], d["r"]
-                            if a.get("k") == "field" and b2.get("k") == "field" and a["member"] == b2["member"] and \
-                                    {a["base"].get("path"), b2["base"].get("path")} == {"self", "other"}:
-                                return a["member"]
-                return None
-            if e.get("k") == "binary" and e["op"] == "&&":
-                ok = {axis(e["l"]), axis(e["r"])} == {"x", "y"}
+        why_adj = ""
+        ps = mir_paths(prog, adj)
+
+        def ev(e, env):
+            e = strip(e)
+            k = e[0]
+            if k == "const" and e[1] in ("int",):
+                return int(e[2])
+            if k == "param":
+                return env[(e[1], tuple(f for f in e[2] if not str(f).startswith("@")))]
+            if k == "field":
+                base = strip(e[1])
+                if base[0] == "param":
+                    return env[(base[1], tuple(base[2]) + tuple(e[2]))]
+                raise ValueError("field of %s" % base[0])
+            if k == "cast":
+                return ev(e[2], env)
+            if k == "un" and e[1] == "Neg":
+                return -ev(e[2], env)
+            if k == "un" and e[1] == "Not":
+                return not ev(e[2], env)
+            if k == "bin":
+                x, y = ev(e[2], env), ev(e[3], env)
+                op = e[1].replace("WithOverflow", "").replace("Unchecked", "")
+                return {"Add": lambda: x + y, "Sub": lambda: x - y, "Mul": lambda: x * y, "Le": lambda: x <= y, "Lt": lambda: x < y, "Ge": lambda: x >= y,
+                        "Gt": lambda: x > y, "Eq": lambda: x == y, "Ne": lambda: x != y, "BitAnd": lambda: x & y, "BitOr": lambda: x | y}[op]()
+            if k == "call" and re.search(r"::abs$|::unsigned_abs$|::abs_diff$", e[1]):
+                vals = [ev(a, env) for a in e[2]]
+                return abs(vals[0]) if len(vals) == 1 else abs(vals[0] - vals[1])
+            if k == "call" and re.search(r"cmp::(max|min)$|Ord::(max|min)$", e[1]) and len(e[2]) == 2:
+                vals = [ev(a, env) for a in e[2]]
+                return max(vals) if e[1].endswith("max") else min(vals)
+            raise ValueError("unsupported %s" % (e[1] if k == "call" else k))
+
+        if ps:
+            try:
+                ok = True
+                for dx in range(-3, 4):
+                    for dy in range(-3, 4):
+                        env = {(1, ("x",)): 0, (1, ("y",)): 0, (2, ("x",)): dx, (2, ("y",)): dy}
+                        res = None
+                        for conds, ret in ps:
+                            taken = True
+                            for c, tk in conds:
+                                v = int(ev(c, env))
+                                if isinstance(tk, tuple):
+                                    if v in tk[1]:
+                                        taken = False
+                                elif v != tk:
+                                    taken = False
+                                if not taken:
+                                    break
+                            if taken:
+                                res = bool(ev(ret, env))
+                                break
+                        want = abs(dx) <= 1 and abs(dy) <= 1
+                        if res is None or res != want:
+                            ok = False
+                            why_adj = "for other - self = (%d, %d) it yields %s" % (dx, dy, res)
+                            break
+                    if not ok:
+                        break
+            except (ValueError, KeyError, TypeError) as ex:
+                ok = False
+                why_adj = "the body is not an integer formula over the two cells (%s)" % ex
+        else:
+            why_adj = "the body is not loop-free"
+        it = src_fn(run, "cell_buffer/cell.rs", "is_adjacent", impl_self="Cell") or {"_file": "crates/svgbob/src/buffer/cell_buffer/cell.rs", "pos": [0]}
         if ok:
             run.ok("C10.I2", "Cell::is_adjacent = |dx| <= 1 && |dy| <= 1 (symmetric 8-neighbourhood)", "%s:%d" % (it["_file"], it["pos"][0]))
         else:
-            run.bad("C10.I2", "adjacency", where(prog.bodies[adj]), "Cell::is_adjacent is not `(other.x - self.x).abs() <= 1 && (other.y - self.y).abs() <= 1`")
+            run.bad("C10.I2", "adjacency", where(prog.bodies[adj]), "Cell::is_adjacent is not |dx| <= 1 && |dy| <= 1: %s" % why_adj)
     else:
         run.missing("C10.I2", "Span::merge / can_merge / Cell::is_adjacent")
     # ---------------- I3 cross-span pass cannot change geometry
